@@ -105,15 +105,20 @@ func (ps *ProcessSet) StartAll(ctx context.Context) error {
 	go ps.run(ctx)
 
 	for i, process := range ps.executes {
+		// the watcher is subscribed and reading before the process starts: however quickly
+		// the process finishes, its cease-flow trace is not missed
+		traces := process.Tracer().Subscribe()
+		failed := make(chan struct{})
+		ps.wg.Add(1)
+		go ps.tracerProcess(ctx, process, traces, failed, &ps.wg)
+
 		err := process.StartAll(ctx)
 		if err != nil {
-			// the watchers of this and the remaining processes are never started
-			ps.watchers.Add(i - len(ps.executes))
+			close(failed)
+			// the watchers of the remaining processes are never started
+			ps.watchers.Add(i + 1 - len(ps.executes))
 			return fmt.Errorf("start process %s: %w", process.Id().String(), err)
 		}
-
-		ps.wg.Add(1)
-		go ps.tracerProcess(ctx, process, &ps.wg)
 	}
 
 	return nil
@@ -164,15 +169,19 @@ func (ps *ProcessSet) run(ctx context.Context) {
 							continue
 						}
 
+						traces := process.Tracer().Subscribe()
+						failed := make(chan struct{})
+						ps.wg.Add(1)
+						ps.watchers.Add(1)
+						go ps.tracerProcess(ctx, process, traces, failed, &ps.wg)
+
 						err = process.StartWith(ctx, startFlowNode)
 						if err != nil {
+							close(failed)
 							ps.tracer.Send(ErrorTrace{Error: err})
 							ps.wg.Done()
 							continue
 						}
-						ps.wg.Add(1)
-						ps.watchers.Add(1)
-						go ps.tracerProcess(ctx, process, &ps.wg)
 					}
 					cancel, found := ps.triggerCatch(string(sourceRef.TargetRefField))
 					if found {
@@ -213,11 +222,12 @@ func (ps *ProcessSet) run(ctx context.Context) {
 	}
 }
 
-func (ps *ProcessSet) tracerProcess(ctx context.Context, process *Process, wg *sync.WaitGroup) {
+// tracerProcess watches a process through its subscription traces, made before the process
+// was started; failed is closed if the process could not be started.
+func (ps *ProcessSet) tracerProcess(ctx context.Context, process *Process, traces chan tracing.ITrace, failed <-chan struct{}, wg *sync.WaitGroup) {
 	defer ps.watchers.Done()
 	defer wg.Done()
 
-	traces := process.Tracer().Subscribe()
 	defer process.tracer.Unsubscribe(traces)
 
 LOOP:
@@ -225,6 +235,8 @@ LOOP:
 		var trace tracing.ITrace
 		select {
 		case trace = <-traces:
+		case <-failed:
+			return
 		case <-ctx.Done():
 			return
 		}
